@@ -165,8 +165,8 @@ type gateHandler struct {
 	rec  *rec
 	udp  bool
 	mu   sync.Mutex
-	byID map[uint16]int    // wire id -> spec q
-	sent map[int]*dns.Msg  // spec q -> query as sent
+	byID map[uint16]int     // wire id -> spec q
+	sent map[int]*dns.Msg   // spec q -> query as sent
 	addr map[int]netip.Addr // spec q -> expected client address
 	conn map[netip.Addr]int // client address -> spec c
 	call map[int]*call
@@ -226,8 +226,12 @@ func (h *gateHandler) Handle(ctx context.Context, q *dns.Msg, meta server.QueryM
 	}
 	r := new(dns.Msg)
 	r.SetReply(q)
+	owner := "noquestion.test." // a (mutated) reader may hand over a message without a question: never panic in the harness
+	if len(q.Question) > 0 {
+		owner = q.Question[0].Name
+	}
 	for n := 0; n < d.size; n += 200 {
-		r.Answer = append(r.Answer, &dns.TXT{Hdr: dns.RR_Header{Name: q.Question[0].Name, Rrtype: dns.TypeTXT, Class: dns.ClassINET, Ttl: 5},
+		r.Answer = append(r.Answer, &dns.TXT{Hdr: dns.RR_Header{Name: owner, Rrtype: dns.TypeTXT, Class: dns.ClassINET, Ttl: 5},
 			Txt: []string{strings.Repeat("x", 180)}})
 	}
 	p, err := pack(r)
@@ -408,8 +412,6 @@ func (c *sconn) fire(onTrack bool) {
 	c.cond.Broadcast()
 }
 
-
-
 type chanListener struct {
 	s      *script
 	ch     chan *sconn
@@ -443,12 +445,12 @@ type script struct {
 	why     string
 	cfg     string
 	// tcp
-	ln        *chanListener
-	conns     map[int]*sconn
-	firstT    time.Duration
-	idleT     time.Duration
-	lnClosed  bool
-	armsSeen  map[int]int
+	ln       *chanListener
+	conns    map[int]*sconn
+	firstT   time.Duration
+	idleT    time.Duration
+	lnClosed bool
+	armsSeen map[int]int
 	// udp
 	srv     *net.UDPConn
 	clis    []*net.UDPConn
